@@ -51,7 +51,7 @@ def _module_globals(case):
     return {}
 
 
-def eval_case(case, prims):
+def eval_case(case, prims, raw=False):
     from pyvc.sources import NativeSource, Skip
     S = NativeSource(prims)
     try:
@@ -87,6 +87,8 @@ def eval_case(case, prims):
                 from pyvc.spec import SKIP
                 if val is SKIP:
                     continue
+                if label in case.known and not raw:
+                    val = bool(val) or bool(case.known[label]["carve"](inp))
                 checks["post:" + label] = bool(val)
             except Exception as ex:
                 checks["post:" + label] = False
@@ -122,7 +124,7 @@ def main():
             results.append({"error": "no such case " + job["case"]})
             continue
         try:
-            results.append(eval_case(case, job["prims"]))
+            results.append(eval_case(case, job["prims"], raw=bool(job.get("raw"))))
         except Exception as ex:  # pragma: no cover
             results.append({"error": f"{type(ex).__name__}: {ex}"})
     json.dump(results, sys.stdout)
